@@ -92,6 +92,10 @@ def gen_case(rng, params, idx):
     # also multi-valued Literals mixing ints and bools (values that are == across types: 1 / True, 0 / False)
     lvl1 += [["L", 0], ["L", 0, 1], ["L", "a"], ["L", 1], ["L", True], ["L", 1, True], ["L", 1, False], ["L", 0, True],
              ["L", False, 1], ["L", 0, "a"], ["L", "a", 0]]
+    # the unions that the library builds as bounds of the mixed Literals, spelled separately (equal, not identical)
+    lvl1 += [["U", "int", "str"], ["U", "str", "int"], ["U", "int", "bool"], ["U", "bool", "int"]]
+    ua, ub = rng.sample(names, 2)
+    lvl1 += [["U", ua, ub], ["D", ["U", ua, ub], "truthy"], ["D", ["U", ub, ua], "truthy"]]
     lvl1 += [["D", "int", "pos"], ["D", rng.choice(names), "truthy"], ["D", "object", "truthy"], ["D", "MyInt", "even"]]
     lvl1 += [["T", "int", "str"], ["T", rng.choice(names)], ["T", "int"], ["T"]]
     for a in rng.sample(plain, 3):
